@@ -414,6 +414,39 @@ def replay_chunk(chunk):
     return res
 
 
+CPU_DOCUMENT = 120         # CPU seconds for one generated document (up to 150 pages of a few glyphs)
+
+
+def pdf_guard(fn, data, la, recs, scale, env, res, what):
+    """extract_pages / extract_text of a generated document under a CPU-time limit.  An exception or a time-out of the
+    library on a well-formed generated document is a finding (analysis must come back), located by running the pages
+    one by one.  -> result or None"""
+    def run(d):
+        cpu_limit(CPU_DOCUMENT)
+        try:
+            return fn(d, la)
+        finally:
+            cpu_limit(0)
+    try:
+        return run(data)
+    except MachineryError:
+        raise
+    except (AnalysisTimeout, Exception, MemoryError) as e:
+        key = "no-termination" if isinstance(e, AnalysisTimeout) else "exception:" + type(e).__name__
+        culprit = recs[0]
+        for r in recs[:150]:
+            try:
+                run(R.pdf_of([r], scale, env=env))
+            except MachineryError:
+                raise
+            except (AnalysisTimeout, Exception, MemoryError):
+                culprit = r
+                break
+        res["viol"].append((key, "%s of a generated document raised %s: %s" % (what, type(e).__name__, str(e)[:160]),
+                            dict(short(culprit), scale=str(scale), route="pdf", rotate=env)))
+        return None
+
+
 def page_environments(groups, la, res):
     """C09, document route: the same arrangements on pages with /Rotate 0, 90, 180, 270 and a media box that is not square
     (text beyond the short side).  The grouping must be the specification's: which lines join does not depend on how the
@@ -426,8 +459,10 @@ def page_environments(groups, la, res):
         if not part:
             continue
         data = R.pdf_of([rs[0] for rs in part], 1, env=rot)
-        pages = R.pdf_pages(data, la)
+        pages = pdf_guard(R.pdf_pages, data, la, [rs[0] for rs in part], 1, rot, res, "extract_pages")
         res["docs"] += 1
+        if pages is None:
+            continue
         if len(pages) != len(part):
             raise MachineryError("generated PDF has %d pages, expected %d" % (len(pages), len(part)))
         seen = R.env_page(rot, 1)[2]
@@ -464,13 +499,18 @@ def replay_pdf_chunk(job):
     per_scale = {}
     for scale in scales:
         data = R.pdf_of([rs[0] for rs in groups], scale)
-        pages = R.pdf_pages(data, la)
+        pages = pdf_guard(R.pdf_pages, data, la, [rs[0] for rs in groups], scale, None, res, "extract_pages")
         res["docs"] += 1
+        if pages is None:
+            continue
         if len(pages) != len(groups):
             raise MachineryError("generated PDF has %d pages, expected %d" % (len(pages), len(groups)))
         texts = None
         if with_text and mode == "C08":
-            texts = R.pdf_text(data, la).split("\f")
+            texts = pdf_guard(R.pdf_text, data, la, [rs[0] for rs in groups], scale, None, res, "extract_text")
+            if texts is None:
+                continue
+            texts = texts.split("\f")
             if len(texts) != len(groups) + 1 or texts[-1] != "":
                 raise MachineryError("extract_text output has %d form feeds for %d pages" % (len(texts) - 1, len(groups)))
         for i, (pg, rs) in enumerate(zip(pages, groups)):
